@@ -15,93 +15,118 @@ Lemma prel_mono_l : forall A cur cur' (RA : A -> A -> Prop) (x y : router * A),
 Proof. intros A cur cur' RA x y L [H1 H2]; split; auto. eapply rt_rel_mono; eauto. Qed.
 
 (* ---------- typed dispatches ---------- *)
+(* reading / writing a period-0 node below the round level never fails *)
+Lemma keep_period_0 : forall pl, AgreementC07Rel.keep_period pl 0 = true.
+Proof. intro pl. unfold AgreementC07Rel.keep_period. rewrite orb_true_r. reflexivity. Qed.
+
+Lemma with_period_ok0 : forall A pl s rn (h : periodNode -> A),
+  exists x, with_period pl 0 s rn (fun pn => Ok (pn, h pn)) = Ok x.
+Proof.
+  intros A pl s rn h. unfold with_period. rewrite rn_update_aget_any, keep_period_0, N.eqb_refl. simpl. eauto.
+Qed.
+
+Lemma with_round_old_ok : forall k A B pm pl cur r p rt rt' (f : roundNode -> res (roundNode * A)) (g : roundNode -> res (roundNode * B)),
+  rt_rel cur rt rt' -> r < cur -> (forall rn, exists x, f rn = Ok x) -> (forall rn, exists y, g rn = Ok y) ->
+  rq k (fun x y => rt_rel cur (fst x) (fst y)) (with_round pm pl r p rt f) (with_round pm pl r p rt' g).
+Proof.
+  intros k A B pm pl cur r p rt rt' f g R L HF HG. unfold with_round.
+  rewrite !root_update_aget_any, N.eqb_refl. destruct (AgreementC07Rel.keep_round pm pl r) eqn:KR; [|apply rq_panic].
+  destruct (HF (rn_update pl p (match aget N.eqb r rt with Some rn => rn | None => rn_zero end))) as [[a' xa] EF].
+  destruct (HG (rn_update pl p (match aget N.eqb r rt' with Some rn => rn | None => rn_zero end))) as [[b' xb] EG].
+  rewrite EF, EG. simpl.
+  intros q Lq. rewrite !aget_aset_N. assert (E : (q =? r) = false) by (apply N.eqb_neq; lia). rewrite E.
+  rewrite !root_update_aget_any, E. destruct (AgreementC07Rel.keep_round pm pl q); simpl; auto.
+Qed.
+
 Section Dispatch.
+  Variable k : bool.
   Variable pm : params.
   Variable pl : player.
   Variable cur : N.
 
   Lemma d_staged_rel : forall rt rt' r p, rt_rel cur rt rt' -> cur <= r ->
-    rqf (rtr cur eq) (d_staged pm pl rt r p) (d_staged pm pl rt' r p).
+    rq k (rtr cur eq) (d_staged pm pl rt r p) (d_staged pm pl rt' r p).
   Proof.
-    intros. unfold d_staged. apply (with_round_rel false _ eq pm pl cur); auto.
+    intros. unfold d_staged. apply (with_round_rel k _ eq pm pl cur); auto.
     intros a b R. apply rn_read_staging_rel; auto.
   Qed.
 
   Lemma d_pinned_rel : forall rt rt' r, rt_rel cur rt rt' -> cur <= r ->
-    rqf (rtr cur eq) (d_pinned pm pl rt r) (d_pinned pm pl rt' r).
+    rq k (rtr cur eq) (d_pinned pm pl rt r) (d_pinned pm pl rt' r).
   Proof.
-    intros. unfold d_pinned. apply (with_round_rel false _ eq pm pl cur); auto.
+    intros. unfold d_pinned. apply (with_round_rel k _ eq pm pl cur); auto.
     intros a b R. simpl. pfin. unfold rn_store_read_pinned. destruct R as (S & _). rewrite S; auto.
   Qed.
 
   Lemma d_next_status_rel : forall rt rt' r p, rt_rel cur rt rt' -> cur <= r ->
-    rqf (rtr cur eq) (d_next_status pm pl rt r p) (d_next_status pm pl rt' r p).
+    rq k (rtr cur eq) (d_next_status pm pl rt r p) (d_next_status pm pl rt' r p).
   Proof.
-    intros. unfold d_next_status. apply (with_round_rel false _ eq pm pl cur); auto.
-    intros a b R. apply (with_period_read_rel false _ pl p 0 a b pn_vp); auto. intros pa pb (_ & V & _); auto.
+    intros. unfold d_next_status. apply (with_round_rel k _ eq pm pl cur); auto.
+    intros a b R. apply (with_period_read_rel k _ pl p 0 a b pn_vp); auto. intros pa pb (_ & V & _); auto.
   Qed.
 
   Lemma d_freshest_rel : forall rt rt' r, rt_rel cur rt rt' -> cur <= r ->
-    rqf (rtr cur eq) (d_freshest pm pl rt r) (d_freshest pm pl rt' r).
+    rq k (rtr cur eq) (d_freshest pm pl rt r) (d_freshest pm pl rt' r).
   Proof.
-    intros. unfold d_freshest. apply (with_round_rel false _ eq pm pl cur); auto.
+    intros. unfold d_freshest. apply (with_round_rel k _ eq pm pl cur); auto.
     intros a b R. simpl. pfin. apply R.
   Qed.
 
   Lemma d_dump_rel : forall rt rt' r p s, rt_rel cur rt rt' -> cur <= r ->
-    rqf (rtr cur eq) (d_dump pm pl rt r p s) (d_dump pm pl rt' r p s).
+    rq k (rtr cur eq) (d_dump pm pl rt r p s) (d_dump pm pl rt' r p s).
   Proof.
-    intros. unfold d_dump. apply (with_round_rel false _ eq pm pl cur); auto.
-    intros a b R. apply (with_period_read_rel false _ pl p s a b (fun pn => vt_dump (pn_step s pn))); auto.
+    intros. unfold d_dump. apply (with_round_rel k _ eq pm pl cur); auto.
+    intros a b R. apply (with_period_read_rel k _ pl p s a b (fun pn => vt_dump (pn_step s pn))); auto.
     intros pa pb (_ & _ & S). unfold pn_step. rewrite S; auto.
   Qed.
 
   Lemma d_freeze_rel : forall rt rt' r p, rt_rel cur rt rt' -> cur <= r ->
-    rqf (rtr cur eq) (d_freeze pm pl rt r p) (d_freeze pm pl rt' r p).
+    rq k (rtr cur eq) (d_freeze pm pl rt r p) (d_freeze pm pl rt' r p).
   Proof.
-    intros. unfold d_freeze. apply (with_round_rel false _ eq pm pl cur); auto.
-    intros a b R. apply (with_period_rel false _ eq pl p 0 a b); auto.
+    intros. unfold d_freeze. apply (with_round_rel k _ eq pm pl cur); auto.
+    intros a b R. apply (with_period_rel k _ eq pl p 0 a b); auto.
     intros pa pb P. apply pn_pt_op_rel; auto. intros ta tb T. apply pt_checked_freeze_rel; auto.
   Qed.
 
   Lemma d_read_lowest_rel : forall rt rt' r, rt_rel cur rt rt' ->
-    rqf (rt_rel cur) (d_read_lowest pm pl rt r) (d_read_lowest pm pl rt' r).
+    rq k (rt_rel cur) (d_read_lowest pm pl rt r) (d_read_lowest pm pl rt' r).
   Proof.
     intros rt rt' r R. unfold d_read_lowest.
     destruct (N.le_gt_cases cur r) as [L|L].
     - eapply rq_bind.
-      + apply (with_round_rel false _ (fun _ _ => True) pm pl cur r 0 rt rt'); auto.
+      + apply (with_round_rel k _ (fun _ _ => True) pm pl cur r 0 rt rt'); auto.
         intros a b RN. eapply rq_bind; [apply rn_store_read_lowest_rel; eauto|].
         intros a1 b1 R1. simpl. pfin.
       + intros [a1 u] [b1 u'] [R1 _]; simpl in *; auto.
     - eapply rq_bind.
-      + apply (with_round_old _ _ pm pl cur r 0 rt rt'); auto.
+      + apply (with_round_old_ok k _ _ pm pl cur r 0 rt rt'); auto; intro rn;
+          unfold rn_store_read_lowest; destruct (with_period_ok0 _ pl 0 rn (fun _ => tt)) as [[rn' u] E]; rewrite E; simpl; eauto.
       + intros [a1 u] [b1 u'] R1; simpl in *; auto.
   Qed.
 
   (* ---------- voteAggregator ---------- *)
   Lemma va_filter_vote_rel : forall rt rt' x, rt_rel cur rt rt' ->
     (vote_fresh (fresh_of pl) x = true -> cur <= vt_rnd x) ->
-    rqf (rtr cur eq) (va_filter_vote pm pl rt x) (va_filter_vote pm pl rt' x).
+    rq k (rtr cur eq) (va_filter_vote pm pl rt x) (va_filter_vote pm pl rt' x).
   Proof.
     intros rt rt' x R HF. unfold va_filter_vote.
     destruct (vote_fresh (fresh_of pl) x) eqn:VF; simpl; [|pfin].
     eapply rq_bind.
-    - apply (with_round_rel false _ eq pm pl cur); auto. intros a b RN.
-      apply (with_period_read_rel false _ pl (vt_per x) (vt_step x) a b (fun pn => vt_filter (pn_step (vt_step x) pn) x)); auto.
+    - apply (with_round_rel k _ eq pm pl cur); auto. intros a b RN.
+      apply (with_period_read_rel k _ pl (vt_per x) (vt_step x) a b (fun pn => vt_filter (pn_step (vt_step x) pn) x)); auto.
       intros pa pb (_ & _ & S). unfold pn_step. rewrite S; auto.
     - intros [a1 d] [b1 d'] [R1 E]; simpl in *. subst d'. pfin.
   Qed.
 
   Lemma va_deliver_rel : forall rt rt' x, rt_rel cur rt rt' -> cur <= vt_rnd x ->
-    rqf (rtr cur eq) (va_deliver pm pl rt x) (va_deliver pm pl rt' x).
+    rq k (rtr cur eq) (va_deliver pm pl rt x) (va_deliver pm pl rt' x).
   Proof.
-    intros. unfold va_deliver. apply (with_round_rel false _ eq pm pl cur); auto.
+    intros. unfold va_deliver. apply (with_round_rel k _ eq pm pl cur); auto.
     intros a b R. apply rn_vote_accepted_rel; auto.
   Qed.
 
   Lemma va_deliver_all_rel : forall vs rt rt' acc, rt_rel cur rt rt' -> (forall x, In x vs -> cur <= vt_rnd x) ->
-    rqf (rtr cur eq) (va_deliver_all pm pl rt vs acc) (va_deliver_all pm pl rt' vs acc).
+    rq k (rtr cur eq) (va_deliver_all pm pl rt vs acc) (va_deliver_all pm pl rt' vs acc).
   Proof.
     induction vs as [|x vs IH]; intros rt rt' acc R HV; simpl; [pfin|].
     eapply rq_bind; [apply va_deliver_rel; [exact R | apply HV; left; auto]|].
@@ -138,6 +163,7 @@ Proof.
 Qed.
 
 Section Root.
+  Variable k : bool.
   Variable pm : params.
   Variable pl : player.
   Hypothesis NW : nowrap pl 0.
@@ -159,7 +185,7 @@ Section Root.
   Qed.
 
   Lemma va_handle_rel : forall rt rt' m, rt_rel cur rt rt' -> mev_wf m ->
-    rqf (rtr cur eq) (va_handle pm pl rt m) (va_handle pm pl rt' m).
+    rq k (rtr cur eq) (va_handle pm pl rt m) (va_handle pm pl rt' m).
   Proof.
     intros rt rt' m R WF. unfold va_handle.
     pose proof (root_update_rel pm pl cur 0 rt rt' R) as R0.
@@ -194,16 +220,19 @@ Section Root.
 
   (* ---------- proposalManager ---------- *)
   Lemma pm_check_dup_rel : forall rt rt' x, rt_rel cur rt rt' -> cur <= vt_rnd x ->
-    rqf (rtr cur eq) (pm_check_dup pm pl rt x) (pm_check_dup pm pl rt' x).
+    rq k (rtr cur eq) (pm_check_dup pm pl rt x) (pm_check_dup pm pl rt' x).
   Proof.
-    intros. unfold pm_check_dup. apply (with_round_rel false _ eq pm pl cur); auto. intros a b RN.
-    apply (with_period_read_rel false _ pl (vt_per x) 0 a b (fun pn => pt_filter (pn_pt pn) x)); auto.
+    intros. unfold pm_check_dup. apply (with_round_rel k _ eq pm pl cur); auto. intros a b RN.
+    apply (with_period_read_rel k _ pl (vt_per x) 0 a b (fun pn => pt_filter (pn_pt pn) x)); auto.
     intros pa pb ((D & _) & _). unfold pt_filter. rewrite D; auto.
   Qed.
 
-  Lemma pm_check_dup_old : forall rt rt' x, rt_rel cur rt rt' -> vt_rnd x < cur ->
-    rqf (fun a b => rt_rel cur (fst a) (fst b)) (pm_check_dup pm pl rt x) (pm_check_dup pm pl rt' x).
-  Proof. intros. unfold pm_check_dup. apply with_round_old; auto. Qed.
+  Lemma pm_check_dup_old : forall rt rt' x, rt_rel cur rt rt' -> vt_rnd x < cur -> vt_per x = 0 ->
+    rq k (fun a b => rt_rel cur (fst a) (fst b)) (pm_check_dup pm pl rt x) (pm_check_dup pm pl rt' x).
+  Proof.
+    intros rt rt' x R L P0. unfold pm_check_dup. rewrite P0.
+    apply with_round_old_ok; auto; intro rn; apply with_period_ok0.
+  Qed.
 
   Lemma proposal_fresh_round : forall x, proposal_fresh (fresh_of pl) x = true -> cur <= vt_rnd x.
   Proof.
@@ -211,14 +240,14 @@ Section Root.
     destruct (vt_rnd x =? p_rnd pl) eqn:E1; [apply N.eqb_eq in E1; unfold cur; lia|].
     destruct (vt_rnd x =? add1 (p_rnd pl)) eqn:E2; [apply N.eqb_eq in E2; rewrite E2; apply cur_le_add1|discriminate].
   Qed.
-  Lemma useful_old : forall x, useful_for_cred_history pm (p_rnd pl) x = true -> vt_rnd x < cur.
+  Lemma useful_old : forall x, useful_for_cred_history pm (p_rnd pl) x = true -> vt_rnd x < cur /\ vt_per x = 0.
   Proof.
     intros x H. unfold useful_for_cred_history in H. repeat (apply andb_true_iff in H; destruct H as [H ?]).
-    apply N.ltb_lt in H; auto.
+    apply N.ltb_lt in H. apply N.eqb_eq in H1. auto.
   Qed.
 
   Lemma pm_filter_vote_rel : forall rt rt' x, rt_rel cur rt rt' ->
-    rqf (fun a b => rt_rel cur (fst a) (fst b) /\ snd (snd a) = snd (snd b) /\ (snd (snd a) = true -> fst (snd a) = fst (snd b)))
+    rq k (fun a b => rt_rel cur (fst a) (fst b) /\ snd (snd a) = snd (snd b) /\ (snd (snd a) = true -> fst (snd a) = fst (snd b)))
         (pm_filter_vote pm pl rt x) (pm_filter_vote pm pl rt' x).
   Proof.
     intros rt rt' x R. unfold pm_filter_vote.
@@ -226,25 +255,27 @@ Section Root.
     - eapply rq_bind; [apply pm_check_dup_rel; [exact R | apply proposal_fresh_round; auto]|].
       intros [a1 d] [b1 d'] [R1 E]; simpl in *. subst d'. auto.
     - destruct (useful_for_cred_history pm (p_rnd pl) x) eqn:U; simpl.
-      + eapply rq_bind; [apply pm_check_dup_old; [exact R | apply useful_old; auto]|].
+      + eapply rq_bind; [apply pm_check_dup_old; [exact R | apply useful_old; auto | apply useful_old; auto]|].
         intros [a1 d] [b1 d'] R1; simpl in *. split; auto. split; auto. intro; discriminate.
       + split; auto.
   Qed.
 
   Lemma pm_vote_rel : forall rt rt' m x, rt_rel cur rt rt' ->
-    rqf (rtr cur pv_rel) (pm_vote pm pl rt m x) (pm_vote pm pl rt' m x).
+    (k = true -> me_verified m = true -> useful_for_cred_history pm (p_rnd pl) x = false) ->
+    rq k (rtr cur pv_rel) (pm_vote pm pl rt m x) (pm_vote pm pl rt' m x).
   Proof.
-    intros rt rt' m x R. unfold pm_vote.
+    intros rt rt' m x R NL. unfold pm_vote.
     pose proof (root_update_rel pm pl cur 0 rt rt' R) as R0.
-    destruct (me_verified m); simpl.
+    destruct (me_verified m) eqn:MV; simpl.
     - destruct (mm_cancelled (me_meta m)); [pfin|].
       destruct (mm_err (me_meta m)); [pfin|].
       destruct (proposal_fresh (fresh_of pl) x) eqn:PF; simpl.
       + eapply rq_bind.
-        * apply (with_round_rel false _ pv_rel pm pl cur); [exact R0 | apply proposal_fresh_round; auto|].
+        * apply (with_round_rel k _ pv_rel pm pl cur); [exact R0 | apply proposal_fresh_round; auto|].
           intros a b RN. apply rn_store_vote_rel; auto.
         * intros [a1 ea] [b1 eb] [R1 E]; simpl in *. pfin.
       + destruct (useful_for_cred_history pm (p_rnd pl) x) eqn:U; simpl; [|pfin].
+        destruct k; [specialize (NL eq_refl eq_refl); discriminate|].
         eapply rq_bind; [apply (with_round_old _ _ pm pl cur); [exact R0 | apply useful_old; auto]|].
         intros [a1 ea] [b1 eb] R1; simpl in *.
         destruct ea, eb; pfin.
@@ -254,22 +285,22 @@ Section Root.
   Qed.
 
   Lemma pm_payload_rel : forall rt rt' m pv, rt_rel cur rt rt' ->
-    rqf (rtr cur eq) (pm_payload pm pl rt m pv) (pm_payload pm pl rt' m pv).
+    rq k (rtr cur eq) (pm_payload pm pl rt m pv) (pm_payload pm pl rt' m pv).
   Proof.
     intros rt rt' m pv R. unfold pm_payload.
     pose proof (root_update_rel pm pl cur 0 rt rt' R) as R0.
     assert (PP : forall r p, cur <= r ->
-              rqf (rtr cur eq)
+              rq k (rtr cur eq)
                   (with_round pm pl r p (root_update pm pl 0 rt) (fun rn => let '(rn', out) := rn_store_payload_present pl rn pv in Ok (rn', out)))
                   (with_round pm pl r p (root_update pm pl 0 rt') (fun rn => let '(rn', out) := rn_store_payload_present pl rn pv in Ok (rn', out)))).
-    { intros r p L. apply (with_round_rel false _ eq pm pl cur); auto. intros a b RN.
+    { intros r p L. apply (with_round_rel k _ eq pm pl cur); auto. intros a b RN.
       pose proof (rn_store_payload_present_rel pl a b pv RN) as [H1 H2].
       destruct (rn_store_payload_present pl a pv) as [a' oa]; destruct (rn_store_payload_present pl b pv) as [b' ob]; simpl in *.
       pfin. }
     destruct (me_verified m); simpl.
     - destruct (mm_cancelled (me_meta m)); [pfin|].
       destruct (mm_err (me_meta m)); [pfin|].
-      apply (with_round_rel false _ eq pm pl cur); auto; [unfold cur; lia|].
+      apply (with_round_rel k _ eq pm pl cur); auto; [unfold cur; lia|].
       intros a b RN. apply rn_store_payload_verified_rel; auto.
     - destruct (p_rnd pl =? v_rnd pv).
       + eapply rq_bind; [apply PP; unfold cur; lia|].
@@ -279,18 +310,18 @@ Section Root.
   Qed.
 
   Lemma pm_new_period_rel : forall rt rt' th, rt_rel cur rt rt' -> th_rnd th = cur ->
-    rqf (rt_rel cur) (pm_new_period pm pl rt th) (pm_new_period pm pl rt' th).
+    rq k (rt_rel cur) (pm_new_period pm pl rt th) (pm_new_period pm pl rt' th).
   Proof.
     intros rt rt' th R E. unfold pm_new_period.
     eapply rq_bind.
-    - apply (with_round_rel false _ (fun _ _ => True) pm pl cur); [exact R | lia |].
+    - apply (with_round_rel k _ (fun _ _ => True) pm pl cur); [exact R | lia |].
       intros a b RN. eapply rq_bind; [apply rn_store_new_period_rel; eauto|].
       intros a1 b1 R1; simpl. pfin.
     - intros [a1 u] [b1 u'] [R1 _]; simpl in *; auto.
   Qed.
 
   Lemma pm_threshold_rel : forall rt rt' r0 th, rt_rel cur rt rt' ->
-    rqf (rtr cur eq) (pm_threshold pm pl rt r0 th) (pm_threshold pm pl rt' r0 th).
+    rq k (rtr cur eq) (pm_threshold pm pl rt r0 th) (pm_threshold pm pl rt' r0 th).
   Proof.
     intros rt rt' r0 th R. unfold pm_threshold.
     pose proof (root_update_rel pm pl cur r0 rt rt' R) as R0.
@@ -301,13 +332,13 @@ Section Root.
     destruct (negb (tkind_eqb (th_t th) TCert) && (th_per th <? p_per pl)); [apply rq_panic|].
     destruct (tkind_eqb (th_t th) TSoft && is_bottom (th_val th)); [apply rq_panic|]. simpl.
     assert (SC : forall a b, rt_rel cur a b ->
-              rqf (rtr cur eq)
+              rq k (rtr cur eq)
                 (do r <- with_round pm pl (th_rnd th) (th_per th) a (fun rn => rn_store_threshold pl rn th);
                  (let '(rt2, out) := r in Ok (rt2, Some out)))
                 (do r <- with_round pm pl (th_rnd th) (th_per th) b (fun rn => rn_store_threshold pl rn th);
                  (let '(rt2, out) := r in Ok (rt2, Some out)))).
     { intros a b RAB. eapply rq_bind.
-      - apply (with_round_rel false _ eq pm pl cur); [exact RAB | lia |]. intros x y RN. apply rn_store_threshold_rel; auto.
+      - apply (with_round_rel k _ eq pm pl cur); [exact RAB | lia |]. intros x y RN. apply rn_store_threshold_rel; auto.
       - intros [a1 oa] [b1 ob] [R1 E1]; simpl in *. subst ob. pfin. }
     destruct (th_t th).
     - eapply rq_bind; [|intros a b RAB; apply SC; exact RAB].
@@ -328,11 +359,11 @@ Section Root.
   Qed.
 
   Lemma pm_new_round_rel : forall rt rt' target, rt_rel cur rt rt' -> cur <= target ->
-    rqf (rtr cur eq) (pm_new_round pm pl rt target) (pm_new_round pm pl rt' target).
+    rq k (rtr cur eq) (pm_new_round pm pl rt target) (pm_new_round pm pl rt' target).
   Proof.
     intros rt rt' target R L. unfold pm_new_round.
     pose proof (root_update_rel pm pl cur target rt rt' R) as R0.
-    apply (with_round_rel false _ eq pm pl cur); auto. intros a b (S & F & P).
+    apply (with_round_rel k _ eq pm pl cur); auto. intros a b (S & F & P).
     unfold rn_store_new_round. rewrite S.
     eapply rq_bind; [apply rq_refl; intros; reflexivity|]. intros x y E; subst y. simpl. pfin.
     split; [|split]; auto.
@@ -347,18 +378,19 @@ Lemma good_thresh_round : forall pm D th, good_thresh pm D th -> ub_rnd (th_b th
 Proof. intros pm D th (_ & K & _). inversion K; auto. Qed.
 
 Section PlayerRel.
+  Variable k : bool.
   Variable pm : params.
   Variable D : list vote.
   Hypothesis DYN : pm_dynfilter pm = false.
 
   Lemma partition_policy_rel : forall pl rt rt', nowrap pl 0 -> RInv pm D rt -> rt_rel (p_rnd pl) rt rt' ->
-    rqf (rtr (p_rnd pl) eq) (partition_policy pm pl rt) (partition_policy pm pl rt').
+    rq k (rtr (p_rnd pl) eq) (partition_policy pm pl rt) (partition_policy pm pl rt').
   Proof.
     intros pl rt rt' NW I R. unfold partition_policy.
     destruct (negb (partitioned pl)); [pfin|].
     eapply rq_bind; [apply rq_wp_l; [apply (d_freshest_spec pm D); exact I | apply d_freshest_rel; [exact R | lia]]|].
     intros [a1 fr] [b1 fr'] [[I1 TP] [R1 E]]; simpl in *. subst fr'.
-    match goal with |- rqf _ (match ?g with _ => _ end) _ => destruct g as [[br bp]|] eqn:EG end; [|pfin].
+    match goal with |- rq k _ (match ?g with _ => _ end) _ => destruct g as [[br bp]|] eqn:EG end; [|pfin].
     assert (BR : p_rnd pl <= br).
     { destruct fr as [th|].
       - destruct (negb (is_bottom (ub_val (th_b th)))).
@@ -373,18 +405,18 @@ Section PlayerRel.
   Qed.
 
   Lemma issue_soft_vote_rel : forall pl rt rt' d, rt_rel (p_rnd pl) rt rt' ->
-    rqf hrel (issue_soft_vote pm pl rt d) (issue_soft_vote pm pl rt' d).
+    rq k hrel (issue_soft_vote pm pl rt d) (issue_soft_vote pm pl rt' d).
   Proof.
     intros pl rt rt' d R. unfold issue_soft_vote.
     eapply rq_bind; [apply d_freeze_rel; [exact R | lia]|].
     intros [a1 fz] [b1 fz'] [R1 E]; simpl in *. subst fz'.
     eapply rq_bind; [apply d_next_status_rel; [exact R1 | lia]|].
     intros [a2 ns] [b2 ns'] [R2 E]; simpl in *. subst ns'.
-    repeat match goal with |- rqf _ (if ?c then _ else _) _ => destruct c end; simpl; unfold hrel; simpl; auto.
+    repeat match goal with |- rq k _ (if ?c then _ else _) _ => destruct c end; simpl; unfold hrel; simpl; auto.
   Qed.
 
   Lemma issue_next_vote_rel : forall pl rt rt' d, nowrap pl 0 -> RInv pm D rt -> rt_rel (p_rnd pl) rt rt' ->
-    rqf hrel (issue_next_vote pm pl rt d) (issue_next_vote pm pl rt' d).
+    rq k hrel (issue_next_vote pm pl rt d) (issue_next_vote pm pl rt' d).
   Proof.
     intros pl rt rt' d NW I R. unfold issue_next_vote.
     eapply rq_bind; [apply partition_policy_rel; auto|].
@@ -400,7 +432,7 @@ Section PlayerRel.
   Qed.
 
   Lemma issue_fast_vote_rel : forall pl rt rt', nowrap pl 0 -> RInv pm D rt -> rt_rel (p_rnd pl) rt rt' ->
-    rqf (rtr (p_rnd pl) eq) (issue_fast_vote pm pl rt) (issue_fast_vote pm pl rt').
+    rq k (rtr (p_rnd pl) eq) (issue_fast_vote pm pl rt) (issue_fast_vote pm pl rt').
   Proof.
     intros pl rt rt' NW I R. unfold issue_fast_vote.
     eapply rq_bind; [apply partition_policy_rel; auto|].
@@ -418,7 +450,7 @@ Section PlayerRel.
   Qed.
 
   Lemma update_cred_history_rel : forall pl rt rt', rt_rel (p_rnd pl) rt rt' ->
-    rqf (rt_rel (p_rnd pl)) (update_cred_history pm pl rt) (update_cred_history pm pl rt').
+    rq k (rt_rel (p_rnd pl)) (update_cred_history pm pl rt) (update_cred_history pm pl rt').
   Proof.
     intros pl rt rt' R. unfold update_cred_history.
     destruct (negb (p_per pl =? 0)); [simpl; auto|]. destruct (p_rnd pl <=? pm_crlag pm); [simpl; auto|].
@@ -426,7 +458,7 @@ Section PlayerRel.
   Qed.
 
   Lemma enter_period_rel : forall pl rt rt' src target, nowrap pl 0 -> RInv pm D rt -> rt_rel (p_rnd pl) rt rt' ->
-    rqf hrel (enter_period pm pl rt src target) (enter_period pm pl rt' src target).
+    rq k hrel (enter_period pm pl rt src target) (enter_period pm pl rt' src target).
   Proof.
     intros pl rt rt' src target NW I R. unfold enter_period.
     eapply rq_bind; [apply partition_policy_rel; auto|].
@@ -438,9 +470,15 @@ Section PlayerRel.
   Qed.
 
   (* ---------- the recursive handler ---------- *)
+  (* strict mode only: no verified proposal-vote inside the late-credential window of an OLD round *)
+  Definition late_free (pl : player) (m : mevent) : Prop :=
+    match me_in m with
+    | InVote x => k = true -> me_verified m = true -> useful_for_cred_history pm (p_rnd pl) x = false
+    | _ => True
+    end.
   Definition pev_wf (pl : player) (bnd : N) (e : pevent) : Prop :=
     match e with
-    | PMsg m => mev_wf m
+    | PMsg m => mev_wf m /\ late_free pl m
     | PRoundInt r => p_rnd pl < r /\ r + bnd + 2 < 2 ^ 64
     | _ => True
     end.
@@ -449,18 +487,18 @@ Section PlayerRel.
   Variable rec : player -> router -> pevent -> hres.
   Hypothesis Hrec : forall pl rt rt' e,
     RInv pm D rt -> pev_ok pm D pl e -> pev_wf pl bnd e -> nowrap pl bnd -> rt_rel (p_rnd pl) rt rt' ->
-    rqf hrel (rec pl rt e) (rec pl rt' e).
+    rq k hrel (rec pl rt e) (rec pl rt' e).
 
   Lemma enter_round_rel : forall pl rt rt' target,
     RInv pm D rt -> rt_rel (p_rnd pl) rt rt' -> nowrap pl 0 -> p_rnd pl <= target -> target + bnd + 1 < 2 ^ 64 ->
-    rqf hrel (enter_round pm rec pl rt target) (enter_round pm rec pl rt' target).
+    rq k hrel (enter_round pm rec pl rt target) (enter_round pm rec pl rt' target).
   Proof.
     intros pl rt rt' target I R NW LT NT. unfold enter_round.
     eapply rq_bind; [apply rq_wp_l; [apply (pm_new_round_spec pm D); exact I | apply pm_new_round_rel; auto]|].
     intros [a1 e] [b1 e'] [I1 [R1 E]]; simpl in *. subst e'.
     set (pl' := mkPlayer target 0 s_soft (p_step pl) (filter_timeout pm 0) dl_filter false 0 (p_pending pl) (p_pnext pl)).
     assert (R1' : rt_rel target a1 b1) by (eapply rt_rel_mono; eauto).
-    eapply rq_bind; [apply rq_wp_l; [apply (d_freshest_spec pm D); exact I1 | apply (d_freshest_rel pm pl' target); [exact R1' | lia]]|].
+    eapply rq_bind; [apply rq_wp_l; [apply (d_freshest_spec pm D); exact I1 | apply (d_freshest_rel k pm pl' target); [exact R1' | lia]]|].
     intros [a2 fr] [b2 fr'] [[I2 TP] [R2 E]]; simpl in *. subst fr'.
     destruct fr as [th|]; [|simpl; unfold hrel; simpl; auto].
     eapply rq_bind.
@@ -470,7 +508,7 @@ Section PlayerRel.
 
   Lemma handle_threshold_rel : forall pl rt rt' th,
     RInv pm D rt -> good_thresh pm D th -> nowrap pl (bnd + 1) -> rt_rel (p_rnd pl) rt rt' ->
-    rqf hrel (handle_threshold pm rec pl rt th) (handle_threshold pm rec pl rt' th).
+    rq k hrel (handle_threshold pm rec pl rt th) (handle_threshold pm rec pl rt' th).
   Proof.
     intros pl rt rt' th I G NW R. unfold handle_threshold.
     assert (NW0 : nowrap pl 0) by (unfold nowrap in *; lia).
@@ -502,35 +540,37 @@ Section PlayerRel.
 End PlayerRel.
 
 Section PlayerRel2.
+  Variable k : bool.
   Variable pm : params.
   Variable D : list vote.
   Hypothesis DYN : pm_dynfilter pm = false.
   Variable bnd : N.
   Variable rec : player -> router -> pevent -> hres.
   Hypothesis Hrec : forall pl rt rt' e,
-    RInv pm D rt -> pev_ok pm D pl e -> pev_wf pl bnd e -> nowrap pl bnd -> rt_rel (p_rnd pl) rt rt' ->
-    rqf hrel (rec pl rt e) (rec pl rt' e).
+    RInv pm D rt -> pev_ok pm D pl e -> pev_wf k pm pl bnd e -> nowrap pl bnd -> rt_rel (p_rnd pl) rt rt' ->
+    rq k hrel (rec pl rt e) (rec pl rt' e).
 
   Lemma handle_proposal_vote_rel : forall pl rt rt' m x,
     RInv pm D rt -> nowrap pl (bnd + 1) -> rt_rel (p_rnd pl) rt rt' ->
-    rqf hrel (handle_proposal_vote pm rec pl rt m x) (handle_proposal_vote pm rec pl rt' m x).
+    (k = true -> me_verified m = true -> useful_for_cred_history pm (p_rnd pl) x = false) ->
+    rq k hrel (handle_proposal_vote pm rec pl rt m x) (handle_proposal_vote pm rec pl rt' m x).
   Proof.
-    intros pl rt rt' m x I NW R. unfold handle_proposal_vote.
+    intros pl rt rt' m x I NW R NL. unfold handle_proposal_vote.
     assert (NW0 : nowrap pl 0) by (unfold nowrap in *; lia).
     eapply rq_bind; [apply rq_wp_l; [apply (pm_vote_spec pm D); exact I | apply pm_vote_rel; auto]|].
     intros [a1 ef] [b1 ef'] [I1 [R1 E]]; simpl in E, R1, I1.
     (* the body only depends on ef up to the late-credential note, which is ignored when DynamicFilterTimeout is off *)
-    match goal with |- rqf _ (bind ?ba _) (bind ?bb _) => assert (EB : ba = bb) end.
+    match goal with |- rq k _ (bind ?ba _) (bind ?bb _) => assert (EB : ba = bb) end.
     { cbv zeta. rewrite DYN. destruct ef, ef'; simpl in E; try discriminate; try inversion E; subst; simpl; auto. }
     rewrite EB. clear EB.
-    match goal with |- rqf _ (bind ?bb _) (bind ?bb _) => destruct bb as [[[pl1 acts] done]| |] eqn:EBB end;
+    match goal with |- rq k _ (bind ?bb _) (bind ?bb _) => destruct bb as [[[pl1 acts] done]| |] eqn:EBB end;
       [|apply rq_panic|simpl; auto].
     assert (PR : p_rnd pl1 = p_rnd pl).
     { clear -EBB. cbv zeta in EBB. destruct ef'; simpl in EBB;
         repeat match type of EBB with context [if ?c then _ else _] => destruct c end;
         try discriminate; inversion EBB; subst; reflexivity. }
     simpl.
-    match goal with |- rqf _ (let '(pl2, tail) := ?pt in _) _ => destruct pt as [pl2 tail] eqn:EPT end.
+    match goal with |- rq k _ (let '(pl2, tail) := ?pt in _) _ => destruct pt as [pl2 tail] eqn:EPT end.
     assert (PR2 : p_rnd pl2 = p_rnd pl).
     { destruct (me_verified m); inversion EPT; subst; simpl; auto. }
     destruct tail as [t|]; [|simpl; unfold hrel; simpl; repeat split; auto; rewrite PR2; auto].
@@ -538,21 +578,21 @@ Section PlayerRel2.
     eapply rq_bind.
     - apply Hrec; [exact I1 | | | | rewrite PR2; exact R1].
       + simpl. split; [intros y Hy; simpl in Hy; contradiction|]. unfold payload_ok; simpl. intro C; discriminate.
-      + simpl. unfold mev_wf; simpl; auto.
+      + simpl. unfold mev_wf, late_free; simpl; auto.
       + unfold nowrap in *. rewrite PR2. lia.
     - intros [[pla a3] acts3] [[plb b3] acts3'] (E1 & E2 & R3); simpl in *. subst plb acts3'. unfold hrel; simpl; auto.
   Qed.
 
   Lemma handle_message_rel : forall pl rt rt' m,
-    RInv pm D rt -> (forall x, In x (delivered_by m) -> In x D) -> payload_ok pl m -> mev_wf m ->
+    RInv pm D rt -> (forall x, In x (delivered_by m) -> In x D) -> payload_ok pl m -> mev_wf m -> late_free k pm pl m ->
     nowrap pl (bnd + 1) -> rt_rel (p_rnd pl) rt rt' ->
-    rqf hrel (handle_message pm rec pl rt m) (handle_message pm rec pl rt' m).
+    rq k hrel (handle_message pm rec pl rt m) (handle_message pm rec pl rt' m).
   Proof.
-    intros pl rt rt' m I S PO WF NW R. unfold handle_message.
+    intros pl rt rt' m I S PO WF LF NW R. unfold handle_message.
     assert (NW0 : nowrap pl 0) by (unfold nowrap in *; lia).
     assert (NWB : nowrap pl bnd) by (unfold nowrap in *; lia).
     destruct (me_in m) as [x|b|pv] eqn:EM.
-    - destruct (vt_step x =? s_propose); [apply handle_proposal_vote_rel; auto|].
+    - destruct (vt_step x =? s_propose); [apply handle_proposal_vote_rel; auto; unfold late_free in LF; rewrite EM in LF; exact LF|].
       eapply rq_bind; [apply rq_wp_l; [apply (va_handle_spec pm D); [exact I | exact S] | apply va_handle_rel; auto]|].
       intros [a1 ef] [b1 ef'] [[I1 G1] [R1 E]]; simpl in *. subst ef'.
       destruct ef as [| | |th]; simpl; try (unfold hrel; simpl; auto; fail).
@@ -571,7 +611,7 @@ Section PlayerRel2.
       intros [a1 ef] [b1 ef'] [[I1 PA] [R1 E]]; simpl in *. subst ef'.
       assert (TAILS : forall acts1 (th : thresh) ra rb,
                 RInv pm D ra -> rt_rel (p_rnd pl) ra rb -> ub_rnd (th_b th) = p_rnd pl ->
-                rqf hrel
+                rq k hrel
                   (do rt3 <- update_cred_history pm pl ra;
                    do r3 <- enter_round pm rec pl rt3 (add1 (ub_rnd (th_b th)));
                    (let '(pl2, rt4, as_) := r3 in Ok (pl2, rt4, acts1 ++ AEnsure pv (th_b th) :: as_)))
@@ -582,7 +622,7 @@ Section PlayerRel2.
         eapply rq_bind; [apply rq_wp_l; [apply (update_cred_history_spec pm D); exact IA | apply update_cred_history_rel; exact RA]|].
         intros a3 b3 [I3 R3].
         eapply rq_bind.
-        - apply (enter_round_rel pm D DYN bnd rec Hrec); auto; unfold nowrap in *; rewrite EU, add1_small; lia.
+        - apply (enter_round_rel k pm D DYN bnd rec Hrec); auto; unfold nowrap in *; rewrite EU, add1_small; lia.
         - intros [[pla a4] acts4] [[plb b4] acts4'] (E1 & E2 & R4); simpl in *. subst plb acts4'. unfold hrel; simpl; auto. }
       destruct ef as [| | |rnd per pinned prop auth|prop auth|prop auth]; try (simpl; unfold hrel; simpl; auto; fail).
       + cbv zeta. destruct (rnd =? p_rnd pl); [simpl; unfold hrel; simpl; auto|]. simpl.
@@ -596,7 +636,7 @@ Section PlayerRel2.
       + cbv zeta. simpl.
         eapply rq_bind; [apply rq_wp_l; [apply (d_freshest_spec pm D); exact I1 | apply d_freshest_rel; [exact R1 | lia]]|].
         intros [a2 fr] [b2 fr'] [[I2 TP] [R2 E]]; simpl in *. subst fr'.
-        assert (FIN : rqf hrel
+        assert (FIN : rq k hrel
                   (if p_step pl <=? s_cert
                    then Ok (pl, a2, (if mm_hnil (me_meta m) then [] ++ [ARelayCompound pv auth] else []) ++ [AAttest (p_rnd pl) (p_per pl) s_cert prop])
                    else Ok (pl, a2, if mm_hnil (me_meta m) then [] ++ [ARelayCompound pv auth] else []))
@@ -611,53 +651,50 @@ Section PlayerRel2.
 
   Lemma handle_fast_timeout_rel : forall pl rt rt' en bad,
     RInv pm D rt -> nowrap pl 0 -> rt_rel (p_rnd pl) rt rt' ->
-    rqf hrel (handle_fast_timeout pm pl rt en bad) (handle_fast_timeout pm pl rt' en bad).
+    rq k hrel (handle_fast_timeout pm pl rt en bad) (handle_fast_timeout pm pl rt' en bad).
   Proof.
     intros pl rt rt' en bad I NW R. unfold handle_fast_timeout.
     destruct bad; [simpl; unfold hrel; simpl; auto|]. destruct (pm_frlambda pm =? 0); [exact Logic.I|].
     destruct (p_frd pl =? 0); [simpl; unfold hrel; simpl; auto|].
-    eapply rq_bind; [apply (issue_fast_vote_rel pm D DYN); auto|].
+    eapply rq_bind; [apply (issue_fast_vote_rel k pm D DYN); auto|].
     intros [a1 acts] [b1 acts'] [R1 E]; simpl in *. subst acts'. unfold hrel; simpl; auto.
   Qed.
 
   Lemma handle_timeout_rel : forall pl rt rt' en bad,
     RInv pm D rt -> nowrap pl 0 -> rt_rel (p_rnd pl) rt rt' ->
-    rqf hrel (handle_timeout pm pl rt en bad) (handle_timeout pm pl rt' en bad).
+    rq k hrel (handle_timeout pm pl rt en bad) (handle_timeout pm pl rt' en bad).
   Proof.
     intros pl rt rt' en bad I NW R. unfold handle_timeout.
     destruct (p_step pl =? s_soft).
     - eapply rq_bind; [apply issue_soft_vote_rel; auto|].
       intros [[pla a1] acts] [[plb b1] acts'] (E1 & E2 & R1); simpl in *. subst plb acts'. unfold hrel; simpl; auto.
-    - destruct (p_step pl =? s_cert); [apply (issue_next_vote_rel pm D DYN); auto|].
-      destruct (p_nap pl); [apply (issue_next_vote_rel pm D DYN); auto|].
+    - destruct (p_step pl =? s_cert); [apply (issue_next_vote_rel k pm D DYN); auto|].
+      destruct (p_nap pl); [apply (issue_next_vote_rel k pm D DYN); auto|].
       destruct (next_vote_ranges pm _ _) as [lo up].
       destruct (up - lo =? 0); [exact Logic.I|]. simpl. unfold hrel; simpl; auto.
   Qed.
 
   Lemma handle_body_rel : forall pl rt rt' e,
-    RInv pm D rt -> pev_ok pm D pl e -> pev_wf pl (bnd + 1) e -> nowrap pl (bnd + 1) -> rt_rel (p_rnd pl) rt rt' ->
-    rqf hrel (handle_body pm rec pl rt e) (handle_body pm rec pl rt' e).
+    RInv pm D rt -> pev_ok pm D pl e -> pev_wf k pm pl (bnd + 1) e -> nowrap pl (bnd + 1) -> rt_rel (p_rnd pl) rt rt' ->
+    rq k hrel (handle_body pm rec pl rt e) (handle_body pm rec pl rt' e).
   Proof.
     intros pl rt rt' e I PE WF NW R.
     assert (NW0 : nowrap pl 0) by (unfold nowrap in *; lia).
     destruct e as [m|th|fast en bad|r|r p s err]; simpl.
-    - destruct PE. apply handle_message_rel; auto.
-    - apply (handle_threshold_rel pm D DYN bnd rec Hrec); auto.
+    - destruct PE. destruct WF. apply handle_message_rel; auto.
+    - apply (handle_threshold_rel k pm D DYN bnd rec Hrec); auto.
     - destruct fast; [apply handle_fast_timeout_rel | apply handle_timeout_rel]; auto.
-    - simpl in WF. destruct WF. apply (enter_round_rel pm D DYN bnd rec Hrec); auto; lia.
+    - simpl in WF. destruct WF. apply (enter_round_rel k pm D DYN bnd rec Hrec); auto; lia.
     - unfold hrel; simpl; auto.
   Qed.
 End PlayerRel2.
 
-Lemma pev_wf_mono : forall pl b b' e, b <= b' -> pev_wf pl b' e -> pev_wf pl b e.
-Proof. intros pl b b' e L H. destruct e; simpl in *; auto. destruct H; split; auto. lia. Qed.
-
-Lemma p_handle_rel : forall pm D, pm_dynfilter pm = false -> forall fuel pl rt rt' e,
-  RInv pm D rt -> pev_ok pm D pl e -> pev_wf pl (N.of_nat fuel) e -> nowrap pl (N.of_nat fuel) -> rt_rel (p_rnd pl) rt rt' ->
-  rqf hrel (p_handle fuel pm pl rt e) (p_handle fuel pm pl rt' e).
+Lemma p_handle_rel : forall k pm D, pm_dynfilter pm = false -> forall fuel pl rt rt' e,
+  RInv pm D rt -> pev_ok pm D pl e -> pev_wf k pm pl (N.of_nat fuel) e -> nowrap pl (N.of_nat fuel) -> rt_rel (p_rnd pl) rt rt' ->
+  rq k hrel (p_handle fuel pm pl rt e) (p_handle fuel pm pl rt' e).
 Proof.
-  intros pm D DYN. induction fuel as [|f IH]; intros pl rt rt' e I PE WF NW R; simpl; [exact Logic.I|].
-  apply (handle_body_rel pm D DYN (N.of_nat f) (p_handle f pm)); auto.
+  intros k pm D DYN. induction fuel as [|f IH]; intros pl rt rt' e I PE WF NW R; simpl; [exact Logic.I|].
+  apply (handle_body_rel k pm D DYN (N.of_nat f) (p_handle f pm)); auto.
   - replace (N.of_nat f + 1) with (N.of_nat (S f)) by lia. exact WF.
   - unfold nowrap in *. lia.
 Qed.
@@ -666,41 +703,41 @@ Qed.
 Definition srel (x y : state * list action) : Prop :=
   s_pl (fst x) = s_pl (fst y) /\ snd x = snd y /\ rt_rel (p_rnd (s_pl (fst x))) (s_rt (fst x)) (s_rt (fst y)).
 
-Definition ev_ok (st : state) (e : ext_event) : Prop :=
-  ev_payload_ok (s_pl st) e /\ pev_wf (s_pl st) (N.of_nat default_fuel) (pevent_of e) /\
+Definition ev_ok (k : bool) (pm : params) (st : state) (e : ext_event) : Prop :=
+  ev_payload_ok (s_pl st) e /\ pev_wf k pm (s_pl st) (N.of_nat default_fuel) (pevent_of e) /\
   nowrap (s_pl st) (N.of_nat default_fuel).
 
-Lemma step_rel : forall pm D st st' e,
-  pm_dynfilter pm = false -> RInv pm D (s_rt st) -> (forall x, In x (ev_delivered e) -> In x D) -> ev_ok st e ->
+Lemma step_rel : forall k pm D st st' e,
+  pm_dynfilter pm = false -> RInv pm D (s_rt st) -> (forall x, In x (ev_delivered e) -> In x D) -> ev_ok k pm st e ->
   s_pl st = s_pl st' -> rt_rel (p_rnd (s_pl st)) (s_rt st) (s_rt st') ->
-  rqf srel (step pm st e) (step pm st' e).
+  rq k srel (step pm st e) (step pm st' e).
 Proof.
-  intros pm D st st' e DYN I S (PO & WF & NW) EP R. unfold step. rewrite <- EP.
+  intros k pm D st st' e DYN I S (PO & WF & NW) EP R. unfold step. rewrite <- EP.
   eapply rq_bind.
-  - apply (p_handle_rel pm D DYN default_fuel); auto.
+  - apply (p_handle_rel k pm D DYN default_fuel); auto.
     + apply root_update_inv; exact I.
     + destruct e; simpl in *; auto.
     + apply root_update_rel; exact R.
   - intros [[pla a1] acts] [[plb b1] acts'] (E1 & E2 & R1); simpl in *. subst plb acts'. unfold srel; simpl; auto.
 Qed.
 
-Fixpoint trace_wf (pm : params) (st : state) (es : list ext_event) : Prop :=
+Fixpoint trace_wf (k : bool) (pm : params) (st : state) (es : list ext_event) : Prop :=
   match es with
   | [] => True
-  | e :: es' => ev_ok st e /\ match step pm st e with Ok (st1, _) => trace_wf pm st1 es' | _ => True end
+  | e :: es' => ev_ok k pm st e /\ match step pm st e with Ok (st1, _) => trace_wf k pm st1 es' | _ => True end
   end.
 
-Lemma run_rel : forall pm, pm_dynfilter pm = false -> forall es D st st',
-  RInv pm D (s_rt st) -> trace_wf pm st es -> s_pl st = s_pl st' -> rt_rel (p_rnd (s_pl st)) (s_rt st) (s_rt st') ->
+Lemma run_rel : forall k pm, pm_dynfilter pm = false -> forall es D st st',
+  RInv pm D (s_rt st) -> trace_wf k pm st es -> s_pl st = s_pl st' -> rt_rel (p_rnd (s_pl st)) (s_rt st) (s_rt st') ->
   forall i a b, nth_error (fst (run pm st es)) i = Some a -> nth_error (fst (run pm st' es)) i = Some b ->
     fst a = fst b /\ s_pl (snd a) = s_pl (snd b) /\ rt_rel (p_rnd (s_pl (snd a))) (s_rt (snd a)) (s_rt (snd b)).
 Proof.
-  intros pm DYN. induction es as [|e es IH]; intros D st st' I T EP R i a b HA HB; simpl in HA, HB.
+  intros k pm DYN. induction es as [|e es IH]; intros D st st' I T EP R i a b HA HB; simpl in HA, HB.
   - destruct i; discriminate.
   - destruct T as [EO T].
     set (D1 := D ++ ev_delivered e).
     assert (I1 : RInv pm D1 (s_rt st)) by (eapply RInv_mono; [|exact I]; intros x Hx; apply in_or_app; auto).
-    pose proof (step_rel pm D1 st st' e DYN I1 (fun x Hx => in_or_app _ _ _ (or_intror Hx)) EO EP R) as SR.
+    pose proof (step_rel k pm D1 st st' e DYN I1 (fun x Hx => in_or_app _ _ _ (or_intror Hx)) EO EP R) as SR.
     pose proof (step_spec pm D1 st e I1 (fun x Hx => in_or_app _ _ _ (or_intror Hx)) (proj1 EO)) as SP.
     destruct (step pm st e) as [[st1 acts1]| |]; simpl in HA; try (destruct i; discriminate).
     destruct (step pm st' e) as [[st2 acts2]| |]; simpl in HB; try (destruct i; discriminate).
@@ -709,6 +746,32 @@ Proof.
     destruct i; simpl in HA, HB.
     + inversion HA; inversion HB; subst; simpl. auto.
     + pose proof (IH D1 st1 st2 A T P1 P3 i a b) as H. rewrite E1, E2 in H. apply H; auto.
+Qed.
+
+(* strict mode: the two runs also stop at the same step in the same way *)
+Definition same_outcome (o o' : outcome) : Prop :=
+  match o, o' with
+  | Finished, Finished => True
+  | Panicked _, Panicked _ => True
+  | Exhausted, Exhausted => True
+  | _, _ => False
+  end.
+
+Lemma run_rel_strict : forall pm, pm_dynfilter pm = false -> forall es D st st',
+  RInv pm D (s_rt st) -> trace_wf true pm st es -> s_pl st = s_pl st' -> rt_rel (p_rnd (s_pl st)) (s_rt st) (s_rt st') ->
+  List.length (fst (run pm st es)) = List.length (fst (run pm st' es)) /\
+  same_outcome (snd (run pm st es)) (snd (run pm st' es)).
+Proof.
+  intros pm DYN. induction es as [|e es IH]; intros D st st' I T EP R; simpl; auto.
+  destruct T as [EO T].
+  set (D1 := D ++ ev_delivered e).
+  assert (I1 : RInv pm D1 (s_rt st)) by (eapply RInv_mono; [|exact I]; intros x Hx; apply in_or_app; auto).
+  pose proof (step_rel true pm D1 st st' e DYN I1 (fun x Hx => in_or_app _ _ _ (or_intror Hx)) EO EP R) as SR.
+  pose proof (step_spec pm D1 st e I1 (fun x Hx => in_or_app _ _ _ (or_intror Hx)) (proj1 EO)) as SP.
+  destruct (step pm st e) as [[st1 acts1]| |]; destruct (step pm st' e) as [[st2 acts2]| |]; simpl in SR; try discriminate; simpl; auto.
+  destruct SR as (P1 & P2 & P3); simpl in P1, P2, P3. destruct SP as [A _]; simpl in A.
+  pose proof (IH D1 st1 st2 A T P1 P3) as [H1 H2].
+  destruct (run pm st1 es) as [l1 o1]. destruct (run pm st2 es) as [l2 o2]. simpl in *. auto.
 Qed.
 
 (* the restored state is related to the original one *)
@@ -765,14 +828,13 @@ Qed.
    restore (persist sigma) and the run from sigma emit the same action lists, keep the same player and
    the same state on everything persistence keeps, at every step at which both runs are defined.
    PARTIAL: nothing is claimed from the first step on at which either run panics -- missing is the proof
-   that a panic occurs in one run iff in the other; the only sites where this can differ are operations
-   on round routers OLDER than the player's round (late-credential bookkeeping:
-   updateCredentialArrivalHistory's readLowestVote and late old-round proposal-votes), i.e. that the
-   proposalTracker contract post-condition cannot fire there. *)
+   that a panic occurs in one run iff in the other when verified late proposal-votes for rounds OLDER
+   than the player's round are delivered (the proposalTracker contract post-condition on a router the
+   restored node re-created empty); see the strict theorem below for the complement. *)
 Theorem restore_persist_id_on_observables_partial_proof : forall pm r0 es0 sigma es,
   pm_dynfilter pm = false ->
   trace_ok pm (init pm r0) es0 -> state_after pm (init pm r0) es0 = Some sigma ->
-  pending_nil (s_pl sigma) -> trace_wf pm sigma es ->
+  pending_nil (s_pl sigma) -> trace_wf false pm sigma es ->
   forall i a b,
     nth_error (fst (run pm sigma es)) i = Some a ->
     nth_error (fst (run pm (restore (persist sigma)) es)) i = Some b ->
@@ -781,7 +843,31 @@ Theorem restore_persist_id_on_observables_partial_proof : forall pm r0 es0 sigma
 Proof.
   intros pm r0 es0 sigma es DYN T0 H0 PN T i a b HA HB.
   pose proof (reach_inv pm es0 [] (init pm r0) sigma (RInv_init pm [] r0) T0 H0) as I.
-  eapply (run_rel pm DYN es _ sigma (restore (persist sigma))); eauto.
+  eapply (run_rel false pm DYN es _ sigma (restore (persist sigma))); eauto.
   - unfold restore, persist; simpl. rewrite persist_player_id; auto.
   - unfold restore, persist; simpl. apply persist_router_rel.
+Qed.
+
+(* strict version: if, in addition, no VERIFIED proposal-vote inside the late-credential window of a
+   round older than the player's round is delivered after the restart ([trace_wf true]), the two runs
+   are in lockstep for the whole continuation: same number of steps, same way of ending (finished /
+   panic / fuel), and at every step the same actions, player and persisted-observable state *)
+Theorem restore_persist_id_on_observables_strict_proof : forall pm r0 es0 sigma es,
+  pm_dynfilter pm = false ->
+  trace_ok pm (init pm r0) es0 -> state_after pm (init pm r0) es0 = Some sigma ->
+  pending_nil (s_pl sigma) -> trace_wf true pm sigma es ->
+  let ro := run pm sigma es in
+  let rr := run pm (restore (persist sigma)) es in
+  List.length (fst ro) = List.length (fst rr) /\ same_outcome (snd ro) (snd rr) /\
+  forall i a b, nth_error (fst ro) i = Some a -> nth_error (fst rr) i = Some b ->
+    fst a = fst b /\ s_pl (snd a) = s_pl (snd b) /\
+    rt_rel (p_rnd (s_pl (snd a))) (s_rt (snd a)) (s_rt (snd b)).
+Proof.
+  intros pm r0 es0 sigma es DYN T0 H0 PN T ro rr.
+  pose proof (reach_inv pm es0 [] (init pm r0) sigma (RInv_init pm [] r0) T0 H0) as I.
+  assert (EP : s_pl sigma = s_pl (restore (persist sigma))) by (unfold restore, persist; simpl; rewrite persist_player_id; auto).
+  assert (RR : rt_rel (p_rnd (s_pl sigma)) (s_rt sigma) (s_rt (restore (persist sigma)))) by (unfold restore, persist; simpl; apply persist_router_rel).
+  destruct (run_rel_strict pm DYN es _ sigma (restore (persist sigma)) I T EP RR) as [L O].
+  split; [exact L|]. split; [exact O|].
+  intros i a b HA HB. eapply (run_rel true pm DYN es _ sigma (restore (persist sigma))); eauto.
 Qed.
